@@ -54,7 +54,7 @@ Print Assumptions C07_untold_trailer_400.
 Definition ex_tables : tables := {|
   t_start := [(X "485454502f312e3120323030204f4b", SlOk {| p11 := true; nobody := false |})];
   t_hdrs := [((true, [(X "436f6e74656e742d4c656e677468", X "31"); (X "5472616e736665722d456e636f64696e67", X "6368756e6b6564")]), HOk)];
-  t_decode := []; t_2047 := []; t_trailer := [] |}.
+  t_decode := []; t_2047 := []; t_trailer := []; t_connect := [] |}.
 Example C07_example :
   feed real (callees_of ex_tables) Client init
     [X "485454502f312e3120323030204f4b0d0a436f6e74656e742d4c656e6774683a20310d0a5472616e736665722d456e636f64696e673a206368756e6b65640d0a0d0a330d0a61";
